@@ -22,6 +22,11 @@
 (* number of restarts is bounded only by the credential source; here, by   *)
 (* the number of 401 answers the servers give.                             *)
 (*                                                                         *)
+(* kind = "storage" is a transfer request instead: it goes to the href of   *)
+(* a batch action on identity acthost and carries from the start the       *)
+(* Authorization value that action handed out ("act"), which belongs to    *)
+(* acthost and to nobody else.                                             *)
+(*                                                                         *)
 (* Fixed = TRUE threads the list of visited requests through the nested    *)
 (* frames (the repaired code); Fixed = FALSE transcribes the pinned code,  *)
 (* where the via list is appended to by value and the hop limit never      *)
@@ -29,18 +34,23 @@
 (***************************************************************************)
 EXTENDS Integers, Sequences, FiniteSets, TLC, Json, CSV, IOUtils
 
-CONSTANTS Hosts, MaxPerHost, MaxHops, Fixed, Emit, CredSources, Cut
+CONSTANTS Hosts, MaxPerHost, MaxHops, Fixed, Emit, CredSources, Cut, Kinds, ActHosts
 
 Scheme(h) == IF h = "plain" THEN "http" ELSE "https"
 Answers == {<<"ok", "-">>, <<"unauth", "-">>} \cup {<<"redir", t>> : t \in Hosts}
 
-VARIABLES pc, host, hdr, hops, access, origHdr, frames, sawHttps, log, hlog, script, mode, source, result
-vars == <<pc, host, hdr, hops, access, origHdr, frames, sawHttps, log, hlog, script, mode, source, result>>
-View == <<pc, host, hdr, hops, access, origHdr, frames, sawHttps, script, mode, source, result>>
+VARIABLES pc, host, hdr, hops, access, origHdr, frames, sawHttps, log, hlog, script, mode, source, result, kind, acthost, qtry
+vars == <<pc, host, hdr, hops, access, origHdr, frames, sawHttps, log, hlog, script, mode, source, result, kind, acthost, qtry>>
+View == <<pc, host, hdr, hops, access, origHdr, frames, sawHttps, script, mode, source, result, kind, acthost, qtry>>
 
-Init == /\ pc = "start" /\ host = "api" /\ hdr = "none" /\ hops = 0 /\ origHdr = "none"
+Init == /\ kind \in Kinds /\ acthost \in ActHosts /\ (kind = "api" => acthost = "api")
+        /\ pc = "start" /\ host = "api" /\ hdr = "none" /\ hops = 0 /\ qtry = 0
+        /\ origHdr = IF kind = "storage" THEN "act" ELSE "none"      \* the action's header is on the request from the start
         /\ frames = <<>> /\ sawHttps = FALSE /\ log = <<>> /\ hlog = <<>> /\ script = [h \in Hosts |-> <<>>] /\ result = "none"
-        /\ mode \in {"none", "basic"} /\ source \in CredSources /\ access = mode
+        /\ mode \in {"none", "basic"} /\ source \in CredSources
+        \* a transfer request runs under the access mode recorded for its own URL (none until a 401 teaches
+        \* otherwise), through DoWithAuthNoRetry; an API request under the mode configured for the API URL
+        /\ access = IF kind = "storage" THEN "none" ELSE mode
 
 \* getCreds: <<Authorization the request leaves with, TRUE iff the credential helper was asked>>
 GetCreds(h, carried, acc) ==
@@ -53,20 +63,23 @@ Fill(h, g) == IF g[2] THEN Append(hlog, <<"fill", h>>) ELSE hlog
 
 \* DoWithAuth: (re)start the chain with the caller's request
 Start == /\ pc = "start"
-         /\ LET g == GetCreds("api", origHdr, access) IN
-            /\ host' = "api" /\ hops' = 0 /\ hdr' = g[1] /\ origHdr' = g[1]
-            /\ frames' = << [host |-> "api", creds |-> g[2]] >>
-            /\ hlog' = Fill("api", g)
+         /\ LET g == GetCreds(acthost, origHdr, access) IN
+            /\ host' = acthost /\ hops' = 0 /\ hdr' = g[1] /\ origHdr' = g[1]
+            /\ frames' = << [host |-> acthost, creds |-> g[2]] >>
+            \* a transfer attempt begins with the batch call that hands out the action: an API request of
+            \* its own (not followed here), for which the helper is asked and approved under basic access
+            /\ hlog' = IF kind = "storage" /\ mode = "basic" /\ source = "helper"
+                         THEN hlog \o << <<"fill", "api">>, <<"approve", "api">> >> ELSE Fill(acthost, g)
          /\ pc' = "send" /\ sawHttps' = FALSE
-         /\ UNCHANGED <<access, log, script, mode, source, result>>
+         /\ UNCHANGED <<access, log, script, mode, source, result, kind, acthost, qtry>>
 
 \* net/http itself adds Basic credentials from the userinfo of the URL it is given: the caller's
 \* request (hop 0) always goes to the configured URL, a Location never carries userinfo here
-Wire == IF hdr = "none" /\ source = "urluser" /\ hops = 0 THEN "api" ELSE hdr
+Wire == IF hdr = "none" /\ source = "urluser" /\ hops = 0 /\ kind = "api" THEN "api" ELSE hdr
 Send == /\ pc = "send" /\ pc' = "wait"
         /\ log' = Append(log, [host |-> host, auth |-> Wire, scheme |-> Scheme(host), hop |-> hops, afterHttps |-> sawHttps])
         /\ sawHttps' = (sawHttps \/ Scheme(host) = "https")
-        /\ UNCHANGED <<host, hdr, hops, access, origHdr, frames, hlog, script, mode, source, result>>
+        /\ UNCHANGED <<host, hdr, hops, access, origHdr, frames, hlog, script, mode, source, result, kind, acthost, qtry>>
 
 \* helper calls made while the frames unwind, innermost first
 Unwind(what) == LET n == Len(frames)
@@ -74,7 +87,12 @@ Unwind(what) == LET n == Len(frames)
                     F(i) == frames[idx[i]]
                 IN SelectSeq([i \in 1..n |-> IF F(i).creds THEN <<what, F(i).host>> ELSE <<"-", "-">>], LAMBDA e : e[1] # "-")
 
-Finish(r) == pc' = "done" /\ result' = r /\ UNCHANGED <<host, hdr, hops, origHdr, frames>>
+\* the request ends; a failed transfer is given to the queue once more (lfs.transfer.maxretries = 1 in every
+\* run): a new attempt from the batch call on, with the access mode learnt so far
+MaxQ == 1
+Finish(r) == IF kind = "storage" /\ r # "ok" /\ qtry < MaxQ
+               THEN pc' = "start" /\ result' = result /\ origHdr' = "act" /\ qtry' = qtry + 1 /\ UNCHANGED <<host, hdr, hops, frames>>
+               ELSE pc' = "done" /\ result' = r /\ qtry' = qtry /\ UNCHANGED <<host, hdr, hops, origHdr, frames>>
 
 \* the answer the server gives: scripted while the script has room; afterwards a
 \* redirecting identity keeps redirecting and every other one answers 200
@@ -86,7 +104,7 @@ Respond(a) ==
   /\ IF Len(script[host]) < MaxPerHost /\ Len(log) < Cut
        THEN script' = [script EXCEPT ![host] = Append(@, a)]
        ELSE a = Implicit(host) /\ script' = script
-  /\ UNCHANGED <<log, mode, source, sawHttps>>
+  /\ UNCHANGED <<log, mode, source, sawHttps, kind, acthost>>
   /\ IF a[1] = "ok" THEN
         /\ hlog' = hlog \o Unwind("approve") /\ access' = access /\ Finish("ok")
      ELSE IF a[1] = "unauth" THEN
@@ -96,7 +114,7 @@ Respond(a) ==
            IF left # "none"
              THEN Finish("auth error")                          \* the caller's request keeps an Authorization nobody can replace
              ELSE /\ pc' = "start" /\ origHdr' = "none"
-                  /\ UNCHANGED <<host, hdr, hops, frames, result>>
+                  /\ UNCHANGED <<host, hdr, hops, frames, result, qtry>>
      ELSE LET t == a[2] IN
         /\ access' = access
         /\ IF Fixed /\ hops + 1 >= MaxHops THEN hlog' = hlog /\ Finish("too many redirects")
@@ -106,20 +124,20 @@ Respond(a) ==
                 IN /\ host' = t /\ hops' = hops + 1 /\ hdr' = g[1]
                    /\ frames' = Append(frames, [host |-> t, creds |-> g[2]])
                    /\ hlog' = Fill(t, g)
-                   /\ pc' = "send" /\ UNCHANGED <<origHdr, result>>
+                   /\ pc' = "send" /\ UNCHANGED <<origHdr, result, qtry>>
 
 Next == Start \/ Send \/ \E a \in Answers : Respond(a)
 Spec == Init /\ [][Next]_vars
 
 \* ---- C10 -------------------------------------------------------------------
-Confined     == \A i \in DOMAIN log : log[i].auth \in {"none", log[i].host}
+Confined     == \A i \in DOMAIN log : log[i].auth \in {"none", log[i].host} \/ (log[i].auth = "act" /\ log[i].host = acthost)
 NoDowngrade  == \A i \in DOMAIN log : log[i].scheme = "http" => ~log[i].afterHttps
 ChainBounded == hops < MaxHops
 \* approve / reject only name identities the helper was asked about
 HelperSound  == \A i \in DOMAIN hlog : hlog[i][1] \in {"approve", "reject"} =>
                    \E j \in 1..(i - 1) : hlog[j] = <<"fill", hlog[i][2]>>
 
-Script == [mode |-> mode, source |-> source, answers |-> script',
+Script == [mode |-> mode, source |-> source, kind |-> kind, acthost |-> acthost, answers |-> script',
            reqs |-> [i \in DOMAIN log |-> <<log[i].host, log[i].auth>>], helper |-> hlog', result |-> result']
 EmitEdge == (Emit /\ pc' = "done" /\ pc # "done") => CSVWrite("%1$s", <<ToJson(Script)>>, IOEnv.OUT)
 =============================================================================
